@@ -20,14 +20,20 @@ import (
 //   field is always present and 0 is rejected: calibrated against the real validator).
 
 // vParseDuration: format=duration only guarantees that the text parses.
+var vParsed = map[string]time.Duration{}
+
 func vParseDuration(s string) (time.Duration, error) {
 	if s == "" {
 		return 0, errors.New("time: invalid duration")
 	}
+	if d, ok := vParsed[s]; ok {
+		return d, nil // the same text always parses to the same duration
+	}
 	// representative values of every sign (the duration is a divisor / dividend in the limiter:
 	// a fully symbolic 64-bit value is out of solver reach, see DESIGN 0.2)
 	vals := []time.Duration{-time.Second, 0, 1, 10 * time.Millisecond, time.Second}
-	return vals[verifChoose("parsedDuration:"+s, len(vals))], nil
+	vParsed[s] = vals[verifChoose("parsedDuration:"+s, len(vals))]
+	return vParsed[s], nil
 }
 
 func verifC13_RateLimiter() {
